@@ -725,9 +725,297 @@ impl Family for MiriPass {
     }
 }
 
+
+// ---------------------------------------------------------------------------------------------------------------
+// Edge operations that the histories above cannot contain: counts near usize::MAX, a reservation presented to a
+// target that did not issue it, a growable target that starts on a vector with contents and dirty spare capacity.
+
+pub struct EdgeOperations {
+    cases: Vec<EdgeCase>,
+}
+#[derive(Clone, Debug)]
+enum EdgeCase {
+    /// target (None = vec, Some(cap) = slice), bytes written before, the huge count
+    HugeReserve(Option<usize>, usize, usize),
+    /// source length, bytes read before, the huge count, peek?
+    HugeSourceRead(usize, usize, usize, bool),
+    /// issuing target (cap or vec), reserved count, receiving target (cap or vec holding that many bytes), bytes written into it
+    AlienReservation(Option<usize>, usize, Option<usize>, usize, usize),
+    /// vec pre-filled with p bytes (spare capacity holds 0xEE), then: write a, reserve k, write b, fill j bytes of the reservation
+    PrefilledVec(usize, usize, usize, usize, usize),
+}
+impl EdgeOperations {
+    pub fn new() -> Self {
+        let huge = [usize::MAX, usize::MAX - 1, isize::MAX as usize + 1, isize::MAX as usize, usize::MAX / 2 + 2];
+        let mut cases = vec![];
+        for t in [None, Some(0usize), Some(1), Some(3)] {
+            for p in 0..=2usize {
+                if t.map_or(false, |c| p > c) {
+                    continue;
+                }
+                for h in huge {
+                    cases.push(EdgeCase::HugeReserve(t, p, h));
+                }
+            }
+        }
+        for len in 0..=3usize {
+            for p in 0..=len.min(2) {
+                for h in huge {
+                    cases.push(EdgeCase::HugeSourceRead(len, p, h, false));
+                    cases.push(EdgeCase::HugeSourceRead(len, p, h, true));
+                }
+            }
+        }
+        for a in [None, Some(2usize), Some(4)] {
+            for k in 1..=3usize {
+                if a.map_or(false, |c| k > c) {
+                    continue;
+                }
+                for b in [None, Some(0usize), Some(1), Some(2), Some(4)] {
+                    for held in 0..=2usize {
+                        for w in 0..=k {
+                            cases.push(EdgeCase::AlienReservation(a, k, b, held, w));
+                        }
+                    }
+                }
+            }
+        }
+        for p in [0usize, 1, 5] {
+            for a in 0..=2usize {
+                for k in 0..=3usize {
+                    for b in 0..=1usize {
+                        for j in 0..=k {
+                            cases.push(EdgeCase::PrefilledVec(p, a, k, b, j));
+                        }
+                    }
+                }
+            }
+        }
+        EdgeOperations { cases }
+    }
+}
+impl Family for EdgeOperations {
+    fn name(&self) -> String {
+        format!("edge-operations/{} cases: reservations of counts near usize::MAX on every target and reads of such counts from a source (must fail and change nothing); a reservation presented to a target that did not issue it (must fail or stay inside that target); a growable target on a vector with contents and dirty spare capacity", self.cases.len())
+    }
+    fn len(&self) -> u64 {
+        self.cases.len() as u64
+    }
+    fn describe(&self, idx: u64) -> Value {
+        json!({"case": format!("{:?}", self.cases[idx as usize])})
+    }
+    fn run(&self, idx: u64) -> CaseOut {
+        let c = self.cases[idx as usize].clone();
+        let mut out = CaseOut::new(hash_str(&format!("edge{idx}")));
+        out.nontrivial = true;
+        out.validated = 1;
+        let what = format!("{c:?}");
+        let r = guarded(|| edge_case(&c));
+        match r {
+            Err((loc, msg)) => out.violate(format!("c12/edge-operations/panic@{loc}"), format!("{what}: panic at {loc}: {msg}")),
+            Ok(Some((sig, msg))) => out.violate(format!("c12/edge-operations/{sig}"), format!("{what}: {msg}")),
+            Ok(None) => {}
+        }
+        out.class = what.split('(').next().unwrap_or("").to_string();
+        out
+    }
+}
+
+/// One edge case against the real objects; Some((signature, message)) = the property does not hold.
+fn edge_case(c: &EdgeCase) -> Option<(String, String)> {
+    const SPARE: u8 = 0xEE;
+    match *c {
+        EdgeCase::HugeReserve(None, p, h) => {
+            let mut v: Vec<u8> = Vec::new();
+            let r;
+            let after_ok;
+            {
+                let mut t = VecOutputTarget::from(&mut v);
+                t.write_bytes_exact(&payload(0, p)).ok()?;
+                r = t.reserve_space(h).is_ok();
+                after_ok = t.write_byte(0x5A).is_ok();
+            }
+            if r {
+                return Some(("huge-reservation-accepted".into(), format!("reserve_space({h}) on the growable target returned Ok")));
+            }
+            let mut exp = payload(0, p);
+            exp.push(0x5A);
+            if !after_ok || v != exp {
+                return Some(("failed-operation-changed-the-target".into(), format!("after the failed reserve_space({h}) the target holds {v:02x?} (write after it: {after_ok}); expected {exp:02x?}")));
+            }
+            None
+        }
+        EdgeCase::HugeReserve(Some(cap), p, h) => {
+            let mut backing = vec![GUARD_BYTE; GUARD + cap + GUARD];
+            for b in &mut backing[GUARD..GUARD + cap] {
+                *b = FILL;
+            }
+            let (r, rem_before, rem_after, after_ok);
+            {
+                let (_g1, rest) = backing.split_at_mut(GUARD);
+                let (mid, _g2) = rest.split_at_mut(cap);
+                let mut t = SliceOutputTarget::from(&mut mid[..]);
+                t.write_bytes_exact(&payload(0, p)).ok()?;
+                rem_before = t.remaining();
+                r = t.reserve_space(h).is_ok();
+                rem_after = t.remaining();
+                after_ok = t.write_byte(0x5A).is_ok();
+            }
+            if r {
+                return Some(("huge-reservation-accepted".into(), format!("reserve_space({h}) on a {cap}-byte slice at position {p} returned Ok")));
+            }
+            if rem_before != rem_after {
+                return Some(("failed-operation-changed-the-target".into(), format!("the failed reserve_space({h}) moved the position: remaining {rem_before} -> {rem_after}")));
+            }
+            let mut exp = vec![GUARD_BYTE; GUARD];
+            let mut mid = payload(0, p);
+            if p < cap {
+                mid.push(0x5A);
+            }
+            mid.resize(cap, FILL);
+            exp.extend(mid);
+            exp.extend(vec![GUARD_BYTE; GUARD]);
+            if backing != exp || after_ok != (p < cap) {
+                return Some(("failed-operation-changed-the-target".into(), format!("after the failed reserve_space({h}) memory is {backing:02x?}, expected {exp:02x?} (write after it: {after_ok})")));
+            }
+            None
+        }
+        EdgeCase::HugeSourceRead(len, p, h, peek) => {
+            let data = src_bytes(len);
+            let mut src = SliceInputSource::from(&data[..]);
+            src.read_byte_slice_exact(p).ok()?;
+            let before = src.remaining();
+            let ok = if peek { src.peek_byte_slice_exact(h).is_ok() } else { src.read_byte_slice_exact(h).is_ok() };
+            let mut big_ok = false;
+            if !peek {
+                // also the copying read with a destination of that length cannot be built; the slice forms are the ones
+                // that take a bare count
+                big_ok = false;
+            }
+            if ok || big_ok {
+                return Some(("huge-read-accepted".into(), format!("a {}-byte source at position {p} yielded {h} bytes", len)));
+            }
+            if src.remaining() != before {
+                return Some(("failed-read-consumed".into(), format!("the failed read of {h} bytes moved the position: remaining {before} -> {}", src.remaining())));
+            }
+            // the source still works
+            let rest = src.read_byte_slice_exact(before).map(|s| s.to_vec()).ok();
+            if rest.as_deref() != Some(&data[p..]) {
+                return Some(("failed-read-consumed".into(), format!("after the failed read the rest of the source is {rest:02x?}, expected {:02x?}", &data[p..])));
+            }
+            None
+        }
+        EdgeCase::AlienReservation(a, k, b, held, w) => {
+            // issue the reservation on target A
+            let mut res: Reservation = match a {
+                None => {
+                    let mut va: Vec<u8> = Vec::new();
+                    let mut ta = VecOutputTarget::from(&mut va);
+                    ta.reserve_space(k).ok()?
+                }
+                Some(cap) => {
+                    let mut ba = vec![FILL; cap];
+                    let mut ta = SliceOutputTarget::from(&mut ba[..]);
+                    ta.reserve_space(k).ok()?
+                }
+            };
+            let (lo, hi) = parse_reservation(&res);
+            let data = payload(1, w);
+            match b {
+                None => {
+                    let mut vb: Vec<u8> = payload(2, held);
+                    let before = vb.clone();
+                    let ok;
+                    {
+                        let mut tb = VecOutputTarget::from(&mut vb);
+                        ok = tb.write_bytes_into_reserved_exact(&mut res, &data).is_ok();
+                    }
+                    // the receiving target holds `held` bytes: the write may only succeed inside them
+                    if ok && hi > before.len() {
+                        return Some(("alien-reservation-written-outside-the-target".into(), format!("a reservation {lo}..{hi} of another target was accepted by a growable target holding {} bytes", before.len())));
+                    }
+                    if vb.len() != before.len() || (!ok && vb != before) {
+                        return Some(("alien-reservation-changed-the-target".into(), format!("the target held {before:02x?} and holds {vb:02x?} after the {} write into the foreign reservation {lo}..{hi}", okerr(ok))));
+                    }
+                    if ok && (vb[..lo] != before[..lo] || vb[hi..] != before[hi..]) {
+                        return Some(("alien-reservation-written-outside-the-reservation".into(), format!("bytes outside {lo}..{hi} changed: {before:02x?} -> {vb:02x?}")));
+                    }
+                    None
+                }
+                Some(cap) => {
+                    let mut backing = vec![GUARD_BYTE; GUARD + cap + GUARD];
+                    for x in &mut backing[GUARD..GUARD + cap] {
+                        *x = FILL;
+                    }
+                    let held = held.min(cap);
+                    let ok;
+                    let before;
+                    {
+                        let (_g1, rest) = backing.split_at_mut(GUARD);
+                        let (mid, _g2) = rest.split_at_mut(cap);
+                        let mut tb = SliceOutputTarget::from(&mut mid[..]);
+                        tb.write_bytes_exact(&payload(2, held)).ok()?;
+                        before = tb.remaining();
+                        ok = tb.write_bytes_into_reserved_exact(&mut res, &data).is_ok();
+                        if tb.remaining() != before {
+                            return Some(("alien-reservation-changed-the-target".into(), format!("writing into a foreign reservation moved the position: remaining {before} -> {}", tb.remaining())));
+                        }
+                    }
+                    if backing[..GUARD].iter().any(|x| *x != GUARD_BYTE) || backing[GUARD + cap..].iter().any(|x| *x != GUARD_BYTE) {
+                        return Some(("alien-reservation-written-outside-the-target".into(), format!("guard bytes around the {cap}-byte slice changed after a write into the foreign reservation {lo}..{hi}: {backing:02x?}")));
+                    }
+                    if ok && hi > cap {
+                        return Some(("alien-reservation-written-outside-the-target".into(), format!("a reservation {lo}..{hi} of another target was accepted by a {cap}-byte slice")));
+                    }
+                    let mut exp = payload(2, held);
+                    exp.resize(cap, FILL);
+                    let mid = &backing[GUARD..GUARD + cap];
+                    if !ok && mid != &exp[..] {
+                        return Some(("alien-reservation-changed-the-target".into(), format!("the failed write into the foreign reservation {lo}..{hi} changed the slice: {mid:02x?}, expected {exp:02x?}")));
+                    }
+                    if ok && (mid[..lo] != exp[..lo] || mid[hi..] != exp[hi..]) {
+                        return Some(("alien-reservation-written-outside-the-reservation".into(), format!("bytes outside {lo}..{hi} changed: {exp:02x?} -> {mid:02x?}")));
+                    }
+                    None
+                }
+            }
+        }
+        EdgeCase::PrefilledVec(p, a, k, b, j) => {
+            let mut v: Vec<u8> = vec![SPARE; 64];
+            for (i, x) in v.iter_mut().enumerate().take(p) {
+                *x = 0xC0 + i as u8;
+            }
+            v.truncate(p); // the spare capacity still holds 0xEE
+            let prefix: Vec<u8> = v.clone();
+            let mut model: Vec<u8> = prefix.clone();
+            let range;
+            {
+                let mut t = VecOutputTarget::from(&mut v);
+                t.write_bytes_exact(&payload(0, a)).ok()?;
+                model.extend(payload(0, a));
+                let mut r = t.reserve_space(k).ok()?;
+                range = parse_reservation(&r);
+                let start = model.len();
+                model.extend(std::iter::repeat(0).take(k));
+                t.write_bytes_exact(&payload(1, b)).ok()?;
+                model.extend(payload(1, b));
+                t.write_bytes_into_reserved_exact(&mut r, &payload(2, j)).ok()?;
+                model[start..start + j].copy_from_slice(&payload(2, j));
+                if range != (start, start + k) {
+                    return Some(("prefilled-vec/reservation-range".into(), format!("the reservation is {range:?} but the next {k} bytes of the log are {start}..{}", start + k)));
+                }
+            }
+            if v != model {
+                return Some(("prefilled-vec/contents".into(), format!("the vector holds {v:02x?} but an append-only log started on {prefix:02x?} holds {model:02x?} (reserved bytes are zeroed)")));
+            }
+            None
+        }
+    }
+}
+
 pub fn families(tier: &str) -> Vec<Box<dyn Family>> {
     let (d_out, d_src) = if tier == "quick" { (5, 5) } else { (7, 7) };
-    let mut v: Vec<Box<dyn Family>> = vec![Box::new(StaterightOut { depth: d_out }), Box::new(StaterightSrc { depth: d_src }), Box::new(Periodic { steps: 200 })];
+    let mut v: Vec<Box<dyn Family>> = vec![Box::new(StaterightOut { depth: d_out }), Box::new(StaterightSrc { depth: d_src }), Box::new(Periodic { steps: 200 }), Box::new(EdgeOperations::new())];
     if tier != "quick" {
         v.push(Box::new(MiriPass));
     }
